@@ -313,7 +313,21 @@ var azFills = []func(n int) []byte{
 	},
 }
 
+// azMacro: runs long enough to make the encoder latch (a single foreign character is shifted): every
+// ordered combination of runs exercises one latch path of the five-mode automaton, incl. the long
+// ones out of Digit mode
+var azMacro = []string{"ABCD", "abcd", "2024", "((((", "!!))", "@@@@", "^_|~", ". , ", "\r\n\r\n", "\x80\x81\x82", " ", "5"}
+
 func enumAztec(c *core.Ctx, classLen int, thorough bool) {
+	Words(azMacro, 2, 3, func(w string, _ int) bool {
+		Run(c, &core.Case{Fam: "az", S: []byte(w), P: []int{33, 0}})
+		return true
+	})
+	// punctuation pairs are the densest content per byte (5 bits for 2 bytes): more bytes than any
+	// other content can have and still fit
+	for _, kp := range [][2]int{{2497, 0}, {2497, 23}, {2497, 33}, {2900, 33}, {3200, 23}, {3900, 0}, {5, 33}, {700, 33}} {
+		Run(c, &core.Case{Fam: "az", S: []byte(strings.Repeat(". ", kp[0])), P: []int{kp[1], 0}})
+	}
 	Words(azClass, 0, classLen, func(w string, _ int) bool {
 		Run(c, &core.Case{Fam: "az", S: []byte(w), P: []int{33, 0}})
 		return true
@@ -409,6 +423,7 @@ func c03Body(c *core.Ctx) {
 	enumAztec(c, cl, c.Thorough())
 	c.R.Bound("class_words", fmt.Sprintf("all words <= %d over %q at (33%%, auto)", cl, azClass))
 	c.R.Bound("bytes", "all 256 single bytes and all 65536 byte pairs")
+	c.R.Bound("macro_words", fmt.Sprintf("all words of 2..3 runs over %q (every latch path between the modes); runs of 5..3900 punctuation pairs", azMacro))
 	c.R.Bound("binary_shift", "binary runs of 1..70 and 2074..2082 bytes between 7x7 mode contexts")
 	c.R.Bound("parameter_grid", "every layer request -5..33 x ecc percentages x fillers at lengths 1, max/2, max-1, max, max+1 (max found by bisection on the encoder)")
 	c.R.Bound("auto_sweep", fmt.Sprintf("lengths 0..1950 step %d x 3 fillers x {23,33}%%", map[bool]int{false: 17, true: 1}[c.Thorough()]))
@@ -484,6 +499,13 @@ func enumPDF(c *core.Ctx, classLen, macroLen int, thorough bool) {
 			}
 			return b
 		},
+	}
+	// the capacity boundary of every level: 900 codewords is the largest symbol (30 x 30)
+	for lv := 0; lv <= 8; lv++ {
+		full := 2 * (899 - (2 << uint(lv)))
+		for n := full - 3; n <= full+2; n++ {
+			Run(c, &core.Case{Fam: "pdf", S: fills[0](n), P: []int{lv}})
+		}
 	}
 	gridLevels := []int{0, 1, 2, 4, 8}
 	if thorough {
